@@ -418,6 +418,70 @@ func checkC09(e *Engine, r *Report) {
 			n := 0
 			ok := true
 			why := ""
+			// checkedIn: in function f, the success return `ret` hands back coins that passed
+			// getTxPriority(coins, gas, getMinGasPricesAllowed(ctx, feeMarketParams, denom)) with ctx / params accepted by the two
+			// predicates. The check may sit in a shared private helper whose (coins, priority, error) result is returned as is:
+			// then the helper is judged on its own parameters and the predicates on the arguments of the call.
+			var checkedIn func(f *ssa.Function, ret *ssa.Return, ctxOK, paramsOK func(ssa.Value) bool, depth int) bool
+			checkedIn = func(f *ssa.Function, ret *ssa.Return, ctxOK, paramsOK func(ssa.Value) bool, depth int) bool {
+				coins := ret.Results[0]
+				if ex, isEx := coins.(*ssa.Extract); isEx && ex.Index == 0 && depth < 2 {
+					if wc, _ := callOf(ex.Tuple); wc != nil {
+						if w := wc.Call.StaticCallee(); privHelper(pkgDual)(w) {
+							argFor := func(v ssa.Value) ssa.Value {
+								if p, isP := resolveLocal(v).(*ssa.Parameter); isP && p.Parent() == w {
+									if k := paramIndex(p); k >= 0 && k < len(wc.Call.Args) {
+										return wc.Call.Args[k]
+									}
+								}
+								return nil
+							}
+							okW := len(successReturns(w)) > 0
+							for _, wr := range successReturns(w) {
+								// the coins the helper returns are one of its own parameters (the fee it was given)
+								if _, isP := resolveLocal(wr.Results[0]).(*ssa.Parameter); !isP {
+									okW = false
+									continue
+								}
+								if !checkedIn(w, wr, func(v ssa.Value) bool { a := argFor(v); return a != nil && ctxOK(a) }, func(v ssa.Value) bool { a := argFor(v); return a != nil && paramsOK(a) }, depth+1) {
+									okW = false
+								}
+							}
+							return okW
+						}
+					}
+				}
+				for _, pc := range callsTo(f, false, specGtp) {
+					if !sameLocal(pc.Common().Args[0], coins) {
+						continue
+					}
+					mc, idx := callOf(pc.Common().Args[2])
+					if mc == nil || idx != 0 || !isCallTo(mc, specGmin) {
+						continue
+					}
+					if !(ctxOK(mc.Call.Args[0]) && paramsOK(mc.Call.Args[1])) {
+						continue
+					}
+					eg := errNilGuards(f, func(x *ssa.Call) bool { return ssa.CallInstruction(x) == pc })
+					var conf []Guard
+					for _, g := range eg {
+						if failEdgeReturnsError(f, g, nil) {
+							conf = append(conf, g)
+						}
+					}
+					if mustPass(f, ret, conf) {
+						return true
+					}
+				}
+				return false
+			}
+			baseCtx := func(v ssa.Value) bool { return resolveLocal(v) == fctx }
+			baseParams := func(v ssa.Value) bool {
+				return sliceFrom(v).Has(func(x ssa.Value) bool {
+					c, ok := x.(*ssa.Call)
+					return ok && isMethodNamed(c, "GetParams") && namedTypeName(c.Call.Value.Type()) == "FeeMarketKeeperForFeeChecker" && resolveLocal(c.Call.Args[0]) == fctx
+				})
+			}
 			for _, ret := range successReturns(fn) {
 				coins := ret.Results[0]
 				// genesis fallback: `return checkTxFeeWithValidatorMinGasPrices(ctx, feeTx)` under BlockHeight()==0
@@ -432,35 +496,7 @@ func checkC09(e *Engine, r *Report) {
 					continue
 				}
 				n++
-				found := false
-				for _, pc := range callsTo(fn, false, specGtp) {
-					if !sameLocal(pc.Common().Args[0], coins) {
-						continue
-					}
-					mc, idx := callOf(pc.Common().Args[2])
-					if mc == nil || idx != 0 || !isCallTo(mc, specGmin) {
-						continue
-					}
-					// params of the same context, from the fee-market keeper
-					pp := sliceFrom(mc.Call.Args[1])
-					if !(resolveLocal(mc.Call.Args[0]) == fctx && pp.Has(func(v ssa.Value) bool {
-						c, ok := v.(*ssa.Call)
-						return ok && isMethodNamed(c, "GetParams") && namedTypeName(c.Call.Value.Type()) == "FeeMarketKeeperForFeeChecker" && resolveLocal(c.Call.Args[0]) == fctx
-					})) {
-						continue
-					}
-					eg := errNilGuards(fn, func(x *ssa.Call) bool { return ssa.CallInstruction(x) == pc })
-					var conf []Guard
-					for _, g := range eg {
-						if failEdgeReturnsError(fn, g, nil) {
-							conf = append(conf, g)
-						}
-					}
-					if mustPass(fn, ret, conf) {
-						found = true
-					}
-				}
-				if !found {
+				if !checkedIn(fn, ret, baseCtx, baseParams, 0) {
 					ok, why = false, "a success return hands back fee coins that did not pass getTxPriority(coins, gas, getMinGasPricesAllowed(ctx, feeMarketParams, denom)) — the price that is checked is not the price that is charged"
 				}
 			}
